@@ -34,7 +34,7 @@ class NeverReturns(Exception):
 
 
 class TeeSys:
-    def __init__(self, L, n, srclen, susp, uselock, exitsusp=0, closable=True, census=False):
+    def __init__(self, L, n, srclen, susp, uselock, exitsusp=0, closable=True, census=False, lockclass=False):
         self.L = L
         self.n, self.srclen, self.susp, self.uselock = n, srclen, susp, uselock
         self.exitsusp = exitsusp
@@ -97,22 +97,24 @@ class TeeSys:
             def __len__(self):      # a lock that reports its waiters: no waiters, so it is falsy when handed over
                 return 0
 
+            h = 0       # who holds THIS lock (sys_.holder mirrors it for the one lock a tee is given)
+
             async def __aenter__(self):
                 c = sys_.current
-                while sys_.holder:
+                while self.h:
                     await Suspend(sys_.acct, ("lock", c))
                     c = sys_.current
-                sys_.holder = c
+                self.h = sys_.holder = c
 
             async def __aexit__(self, *exc):
                 c = sys_.current
-                sys_.holder = 0
+                self.h = sys_.holder = 0
                 if sys_.exitsusp:
                     await Suspend(sys_.acct, ("lockexit", c))
                 return None
 
         self.source = ClosableSource() if closable else Source()
-        self.lock = Lock() if uselock else None
+        self.lock = (Lock if lockclass else Lock()) if uselock else None
         self.tee = L.tee(self.source, n=n, lock=self.lock) if uselock else L.tee(self.source, n=n)
         # children are looked up one by one, each when it is first used (tee[i] is as good as unpacking the handle)
         self._children = {}
@@ -497,10 +499,22 @@ def replay_path(args):
 
 def random_run(args):
     """A seeded random schedule on constants beyond the exhaustive bounds."""
-    seed, n, srclen, susp, uselock, exitsusp, closable = args
+    seed, n, srclen, susp, uselock, exitsusp, closable = args[:7]
+    lockclass = len(args) > 7 and args[7] and uselock
     rnd = random.Random(seed)
     L = tm.load_lib()
-    sysm = TeeSys(L, n, srclen, susp, uselock, exitsusp, closable)
+    if lockclass:
+        # The lock given as a CLASS.  The library refuses that (it is not a lock: TypeError at the first item); one that
+        # accepts it owes the same exclusion -- one consumer inside the source at a time -- as with a lock object.
+        probe = TeeSys(L, 1, 1, 0, True, 0, closable, lockclass=True)
+        try:
+            probe.apply("anext", 1)
+            refused = any(e.get("e") == "error" for e in probe.trace)
+        except Exception:  # noqa: BLE001
+            refused = True
+        if refused:
+            return None
+    sysm = TeeSys(L, n, srclen, susp, uselock, exitsusp, closable, lockclass=lockclass)
     failed = False
     steps = []
     for _ in range(rnd.randint(5, 12 * n + 4 * srclen)):
@@ -596,9 +610,9 @@ def check(prop, tier, seed, into=None):
         n = rnd.choice([2, 3, 4, 5])
         uselock = rnd.random() < 0.7
         rjobs.append((seed * 1000003 + i, n, rnd.randint(0, 8), rnd.choice([0, 1, 2, 3]) if uselock else 0, uselock,
-                      rnd.choice([0, 1]) if uselock else 0, rnd.random() < 0.8))
+                      rnd.choice([0, 1]) if uselock else 0, rnd.random() < 0.8, i % 20 == 7))
     with mp.Pool(min(16, os.cpu_count() or 4)) as pool:
-        rres = pool.map(random_run, rjobs, chunksize=64)
+        rres = [r for r in pool.map(random_run, rjobs, chunksize=64) if r is not None]
     tot["random_traces"] = len(rres)
     alltraces += rres
     # the same object under a real event loop: asyncio tasks, asyncio.Lock, Task.cancel()
